@@ -1982,3 +1982,71 @@ async fn d48_checkpoint_opened_next_to_the_live_store_reads_the_live_stores_bloc
 	assert_eq!(point.as_deref(), Some("x"), "D48: a point read in the checkpoint database is answered from a block the live store cached under the same (table id, offset)");
 }
 
+
+// D50: after a FAILED flush the memtable task clears its flag, finds the failed memtable still queued and notifies
+// itself: it retries the failing flush in a tight loop (CPU and log flood) until close().  (A regression introduced by
+// the D31 repair, which re-arms the task whenever something is still queued.)
+mod d50 {
+	use std::sync::atomic::{AtomicUsize, Ordering};
+	use std::sync::Arc;
+
+	use crate::compaction::CompactionStrategy;
+	use crate::error::{BackgroundErrorHandler, Result};
+	use crate::lsm::CompactionOperations;
+	use crate::stall::{StallCounts, StallThresholds, WriteStallController, WriteStallCountProvider};
+	use crate::task::TaskManager;
+	use crate::{Error, Options};
+
+	struct NoStall;
+	impl WriteStallCountProvider for NoStall {
+		fn get_stall_counts(&self) -> StallCounts {
+			StallCounts {
+				immutable_memtables: 0,
+				l0_files: 0,
+			}
+		}
+	}
+
+	struct AlwaysFailingFlush {
+		attempts: AtomicUsize,
+		handler: Arc<BackgroundErrorHandler>,
+	}
+
+	impl CompactionOperations for AlwaysFailingFlush {
+		fn compact_memtable(&self) -> Result<()> {
+			self.attempts.fetch_add(1, Ordering::SeqCst);
+			Err(Error::Other("disk full".into()))
+		}
+		fn compact(&self, _s: Arc<dyn CompactionStrategy>) -> Result<()> {
+			Ok(())
+		}
+		fn error_handler(&self) -> Arc<BackgroundErrorHandler> {
+			Arc::clone(&self.handler)
+		}
+		fn has_pending_immutables(&self) -> bool {
+			true // the memtable whose flush failed is still queued
+		}
+	}
+
+	#[tokio::test(flavor = "multi_thread")]
+	async fn d50_failed_flush_is_retried_in_a_tight_loop() {
+		let core = Arc::new(AlwaysFailingFlush {
+			attempts: AtomicUsize::new(0),
+			handler: Arc::new(BackgroundErrorHandler::new()),
+		});
+		let stall = Arc::new(WriteStallController::new(
+			Arc::new(NoStall) as Arc<dyn WriteStallCountProvider>,
+			StallThresholds {
+				memtable_limit: 2,
+				l0_file_limit: 12,
+			},
+		));
+		let tm = TaskManager::new(Arc::clone(&core) as Arc<dyn CompactionOperations>, Arc::new(Options::default()), stall);
+		tm.wake_up_memtable();
+		tokio::time::sleep(std::time::Duration::from_millis(300)).await;
+		let n = core.attempts.load(Ordering::SeqCst);
+		let _ = tokio::time::timeout(std::time::Duration::from_secs(10), tm.stop()).await;
+		println!("D50 flush attempts in 300 ms after one wake-up: {n}");
+		assert!(n <= 2, "D50: one wake-up, {n} attempts of a flush that fails every time");
+	}
+}
